@@ -242,20 +242,34 @@ def gen_case(draw):
 
 @st.composite
 def bswap_case(draw):
-    x = ("var", "x_16", 16)
-    lhs = draw(st.sampled_from([("bswap", x), ("extract", 7, 0, ("bswap", x)), ("bvadd", ("bswap", x), _c(draw(st.integers(0, 65535)), 16))]))
+    """Byte reversal of a 16-bit variable and -- what makes the interval under the reversal non-trivial while the assignment
+    space stays small -- of a 16-bit value built from a 4- or 8-bit variable (zero / sign extension, concatenation with a
+    constant byte, an added constant), alone, sliced, or under an addition."""
+    k = draw(st.integers(0, 9))
+    if k <= 2:
+        inner = ("var", "x_16", 16)
+    else:
+        n = draw(st.sampled_from((4, 8)))
+        v = ("var", f"x_{n}", n)
+        inner = draw(st.sampled_from([("zext", 16 - n, v), ("sext", 16 - n, v), ("concat", _c(draw(st.sampled_from((0, 1, 0x80, 0xFF))) & ((1 << (16 - n)) - 1), 16 - n), v),
+                                      ("concat", v, _c(draw(st.sampled_from((0, 1, 0x80, 0xFF))) & ((1 << (16 - n)) - 1), 16 - n)),
+                                      ("bvadd", ("zext", 16 - n, v), _c(draw(st.sampled_from((1, 0xFF, 0x100, 0x7FF0, 0xFFF0))), 16))]))
+    r = ("bswap", inner)
+    lhs = draw(st.sampled_from([r, r, ("extract", 7, 0, r), ("extract", 15, 8, r), ("bvadd", r, _c(draw(st.integers(0, 65535)), 16)), ("bswap", ("bvadd", r, _c(draw(st.sampled_from((1, 0x100, 0xFF00))), 16)))]))
     w = ir.width(lhs)
-    return {"tree": (draw(st.sampled_from(CMPS)), lhs, _c(draw(st.sampled_from((0, 1, 0xFF, 0x100, 0x7FFF, 0x8000, 0xFFFF, 0x1234))), w)), "e2e": False}
+    consts = (0, 1, 0xF, 0x10, 0xFF, 0x100, 0xF00, 0xFFF, 0x1000, 0x7FFF, 0x8000, 0xFF00, 0xFFFF, 0x1234)
+    return {"tree": (draw(st.sampled_from(CMPS)), lhs, _c(draw(st.sampled_from(consts)) & ((1 << w) - 1), w)), "e2e": draw(st.integers(0, 3)) == 0}
 
 
-N = {"quick": {"gen": 1500, "bswap": 150}, "thorough": {"gen": 20000, "bswap": 1500}}
+N = {"quick": {"gen": 1500, "bswap": 400}, "thorough": {"gen": 20000, "bswap": 6000}}
 
 
 def shards(tier, seed):
     out = []
     for i in range(12):
         out.append({"mode": "gen", "i": i, "n": N[tier]["gen"], "hseed": seed * 1000 + 2500 + i})
-    out.append({"mode": "bswap", "i": 0, "n": N[tier]["bswap"], "hseed": seed * 1000 + 2520})
+    for i in range(3):
+        out.append({"mode": "bswap", "i": i, "n": N[tier]["bswap"], "hseed": seed * 1000 + 2520 + i})
     parts = 3
     for p in range(parts):
         out.append({"mode": "enum", "part": p, "parts": parts})
